@@ -1,4 +1,5 @@
 import MitmVerif.Model.C39
+import MitmVerif.Model.C39_Flt
 import Driver.Proto
 open MitmVerif Driver
 
@@ -17,37 +18,7 @@ open MitmVerif Driver
 namespace C39Driver
 open MitmVerif.C39
 
-inductive Flt where
-  | all | http | tcp | udp | dns | ws | resp | err | marked
-  | noresp | replay | post | c200 | c404
-  | not (a : Flt) | and (a b : Flt) | or (a b : Flt)
-
-def bit (c k : Nat) : Bool := (c / k) % 2 == 1
-
-def eval : Flt → Nat → Bool
-  | .all, _ => true
-  | .http, c => c % 4 == 0
-  | .tcp, c => c % 4 == 1
-  | .udp, c => c % 4 == 2
-  | .dns, c => c % 4 == 3
-  | .ws, c => bit c 16
-  | .resp, c => bit c 4
-  | .err, c => bit c 8
-  | .marked, c => bit c 32
-  | .noresp, c => (c % 4 == 0 || c % 4 == 3) && !(bit c 4)            -- ~q: HTTP/DNS flow without response
-  | .replay, c => bit c 64                                            -- ~replay
-  | .post, c => c % 4 == 0 && bit c 128                               -- ~m POST (HTTP only)
-  | .c200, c => c % 4 == 0 && bit c 4 && !(bit c 256)                 -- ~c 200
-  | .c404, c => c % 4 == 0 && bit c 4 && bit c 256                    -- ~c 404
-  | .not a, c => !(eval a c)
-  | .and a b, c => eval a c && eval b c
-  | .or a b, c => eval a c || eval b c
-
-def env : Env Flt Nat :=
-  { mt := fun g _ c => eval g c, isWs := fun c => bit c 16,
-    fmt := fun pat now => if pat = 2 then 10 + now % 4 else if pat = 4 then 200 + now % 16
-                          else if pat = 5 then 300 + (now / 4) % 4 else pat,
-    openFails := fun p => p = 3 || p = 12 || p = 301 }
+def env : Env Flt Nat := fltEnv driverFmt driverOpenFails
 
 def parseFlt : Nat → List String → Option (Flt × List String)
   | 0, _ => none
@@ -161,6 +132,10 @@ def stepLine (d : DS) (line : String) : DS × String :=
     match parseFileArg file, parseFiltArg filt with
     | some file, some filt => runEv d (.update file filt)
     | _, _ => bad
+  | ["spec", sx] =>
+    match hexOr sx with
+    | some s => (d, (if specMode s then "a " else "w ") ++ showBytes (specPath s))
+    | none => bad
   | ["dump"] =>
     let parts := allPaths.filterMap fun p =>
       let n := d.fs.files p
